@@ -201,7 +201,7 @@ func TestVerifC07PluginHistory(t *testing.T) {
 		capacityHolds := true
 		cycles := map[string]fwktype.CycleState{} // pods committed by Reserve whose scheduling cycle can still be rolled back
 		delivered := map[string]bool{}            // the informer has shown the pod bound
-		var sawDryRun, sawDryRun3, sawAliasShape, sawDesignated, sawDesignatedInterleaved, sawInterleaved, sawReserveRefusedAfterFilter, sawBindFailed, sawServed, sawRefused, sawTombstone bool
+		var sawDryRun, sawDryRun3, sawAliasShape, sawDesignated, sawDesignatedInterleaved, sawInterleaved, sawReserveRefusedAfterFilter, sawBindFailed, sawServed, sawRefused, sawTombstone, sawAnnotationDropped bool
 
 		// an event that changes the cache, delivered between Filter and Reserve of somebody else's cycle
 		interleave := func(t *rapid.T, sameAs c07Request, victimOf apiext.DeviceAllocations) (string, bool) {
@@ -503,6 +503,24 @@ func TestVerifC07PluginHistory(t *testing.T) {
 				if cs := cycles[p.Name]; cs != nil && !delivered[p.Name] && rapid.Bool().Draw(t, "viaUnreserve") {
 					pl.Unreserve(bg, cs, p.Sched, c07Node)
 					note("Unreserve " + p.Name + " (pod never bound)")
+				} else if (cycles[p.Name] == nil || delivered[p.Name]) && rapid.IntRange(0, 3).Draw(t, "dropAnnotation") == 0 {
+					// the pod stays assigned and running but its device-allocated annotation is removed: it holds nothing any more;
+					// status updates and finally the delete follow, all without an allocation
+					stripped := c07StripAllocation(p.Bound)
+					w.cache.onPodUpdate(p.Bound, stripped)
+					note("podUpdate allocation annotation removed " + p.Name)
+					if rapid.Bool().Draw(t, "thenStatusUpdate") {
+						next := stripped.DeepCopy()
+						next.Status.Message = "touched"
+						w.cache.onPodUpdate(stripped, next)
+						stripped = next
+						note("  podUpdate status " + p.Name)
+					}
+					if rapid.Bool().Draw(t, "thenDelete") {
+						w.cache.onPodDelete(c07DeleteEvent(stripped, rapid.Bool().Draw(t, "tombstone")))
+						note("  podDelete " + p.Name)
+					}
+					sawAnnotationDropped = true
 				} else {
 					tomb := rapid.Bool().Draw(t, "tombstone")
 					w.cache.onPodDelete(c07DeleteEvent(p.Bound, tomb))
@@ -562,6 +580,7 @@ func TestVerifC07PluginHistory(t *testing.T) {
 		c.ClassIf(sawReserveRefusedAfterFilter, "reserve-refused-after-interleaved-event")
 		c.ClassIf(sawBindFailed, "unreserve-of-bound-pod-then-updates")
 		c.ClassIf(sawTombstone, "delete-delivered-as-tombstone")
+		c.ClassIf(sawAnnotationDropped, "update-removes-allocation-annotation-of-live-pod")
 		c.ClassIf(sawServed, "some-request-served")
 		c.ClassIf(sawRefused, "some-request-refused")
 		c.ClassIf(capacityHolds, "no-capacity-loss(used<=total asserted throughout)")
